@@ -23,7 +23,7 @@ def execute(c):
     off = off1
 
     # when translation is requested the result does not depend on where tree 2 starts: move it far away (different float32 binade)
-    far = (1234.56, -987.65, 5555.55) if (c["tr"] == 1 and c["cid"] % 2 == 0) else (0.0, 0.0, 0.0)
+    far = (1234.56, -987.65, 5555.55) if (c["tr"] == 1 and lib.vid(c) % 2 == 0) else (0.0, 0.0, 0.0)
 
     def mk(P, pos, ty, rad, base):
         n = len(P)
